@@ -612,10 +612,12 @@ func r16e(c *an.Ctx) {
 				call := cm.(*ssa.Call)
 				for _, r := range *call.Referrers() {
 					if ex, isEx := r.(*ssa.Extract); isEx {
-						if ex.Index == 1 && a[1] == ssa.Value(ex) {
+						ex := ex
+						isThis := func(v ssa.Value) bool { return v == ssa.Value(ex) }
+						if ex.Index == 1 && (a[1] == ssa.Value(ex) || resolvesOnlyTo(a[1], isThis)) {
 							okE = true
 						}
-						if ex.Index == 0 && a[2] == ssa.Value(ex) {
+						if ex.Index == 0 && (a[2] == ssa.Value(ex) || resolvesOnlyTo(a[2], isThis)) {
 							okS = true
 						}
 					}
@@ -654,6 +656,25 @@ func r16e(c *an.Ctx) {
 			if len(a) == 4 && len(fn.Params) >= 3 && a[1] == ssa.Value(fn.Params[1]) && a[2] == ssa.Value(fn.Params[2]) {
 				ok = true
 			}
+		}
+		// or the answer is assembled in place: CurrentState is only ever the state parameter, and the error handed to the
+		// base response is the error parameter
+		if !ok && len(fn.Params) >= 3 {
+			stateOK, nState, errOK := true, 0, false
+			an.Instrs(fn, func(in ssa.Instruction) {
+				if st, isSt := in.(*ssa.Store); isSt && isFieldNamed(st.Addr, "CurrentState") {
+					nState++
+					if st.Val != ssa.Value(fn.Params[2]) {
+						stateOK = false
+					}
+				}
+				if call, isCall := in.(*ssa.Call); isCall && strings.HasSuffix(an.CalleeName(&call.Call), "controlcommands.NewMesosCommandResponse") {
+					if len(call.Call.Args) == 2 && call.Call.Args[1] == ssa.Value(fn.Params[1]) {
+						errOK = true
+					}
+				}
+			})
+			ok = stateOK && nState > 0 && errOK
 		}
 		c.Ob("executor/executorcmd.(*ExecutorCommand_Transition).PrepareResponse|state-and-error-unchanged", fn.Pos(), ok,
 			"the response must carry exactly the error and the state it was given: substituting another state (e.g. the source state for an empty one) reports a state the device is not in")
@@ -750,6 +771,25 @@ func r16f(c *an.Ctx, all []devStep, helpers map[*ssa.Function]bool) {
 			for _, ret := range fl.ReachedReturns() {
 				if v := an.RetVal(ret, errIdx); v != nil && !an.IsNilConst(v) && fl.NilCanReach(v, ret, st.call) {
 					cleared = append(cleared, c.PosStr(lastPos(ret.Block())))
+				}
+			}
+			// ... nor replaced by the error of a later device step (a rollback that succeeds would turn the failure into a
+			// success)
+			for _, ret := range fl.ReachedReturns() {
+				v := an.RetVal(ret, errIdx)
+				if v == nil {
+					continue
+				}
+				for _, pv := range fl.PossibleValues(v, ret, st.call) {
+					ex, isEx := pv.(*ssa.Extract)
+					if !isEx || ex == errVal {
+						continue
+					}
+					for _, o := range all {
+						if o.fn == fn && o.call != st.call && ex.Tuple == ssa.Value(o.call) && an.CanReach(st.call, o.call) && isRollbackStep(o, all, helpers) {
+							cleared = append(cleared, c.PosStr(o.call.Pos())+" (replaced by this step's error)")
+						}
+					}
 				}
 			}
 			sort.Strings(cleared)
